@@ -68,7 +68,7 @@ func (b *Broker) send(ctx context.Context, id string, responder chan map[string]
 	topics.Range(func(key, value interface{}) bool {
 		size++
 		topic := key.(string)
-		cache := value.(*MessageCache)
+		cache, _ := value.(*MessageCache) // Deny stores a nil interface, not a nil *MessageCache
 		if cache == nil {
 			result[topic] = nil
 			topics.Delete(topic)
